@@ -77,6 +77,8 @@ def url_of(req):
 def http_of(req):
     """-> kwargs for werkzeug.test.Client.open"""
     kw = {"method": req["method"], "headers": {}}
+    if req.get("host"):
+        kw["headers"]["Host"] = req["host"]
     if req["accept"][0] is not None:
         kw["headers"]["Accept"] = req["accept"][0]
     b = req["body"]
@@ -95,6 +97,14 @@ def http_of(req):
         kw["data"] = data
         kw["content_type"] = "multipart/form-data"
     return url_of(req), kw
+
+
+PATH_RE = re.compile("[\t\n\r\x20-\ud7ff\ue000-\ufffd\U00010000-\U0010ffff]{1,2000}\\Z")
+
+
+def fname_ok(name):
+    """does the proposed file name satisfy the PathType constraints (length, AASd-130 characters)?"""
+    return bool(PATH_RE.match(name))
 
 
 def cid(sym, raw):
@@ -135,12 +145,14 @@ def coq_request(sym, req):
     elif b[0] == "val":
         body = f"(BVal {'false' if b[1] == 'json' else 'true'} {G.cvalue(sym, b[2])})"
     else:
-        fn = "None" if b[1] is None else f"(Some {G.cstr(b[1])})"
+        ok = b[1] is None or fname_ok(b[1])
+        printable = b[1] is not None and len(b[1]) < 200 and all(32 <= ord(c) < 127 for c in b[1])
+        fn = "None" if b[1] is None else f"(Some {G.cstr(b[1] if printable else ('/' if b[1].startswith('/') else '') + 'unprintable')})"
         fl = "None" if b[2] is None else f"(Some ({b[2][0]}%nat, {b[2][1]}%nat))"
-        body = f"(BUpload {fn} {fl})"
+        body = f"(BUpload {fn} {'true' if ok else 'false'} {fl})"
     flags = (1 if req.get("sorted") else 0) + (2 if req["method"] == "HEAD" else 0)
     return (f"(mkr {G.cstr(req['rule'])} {METH[req['method']]} {ACCC[req['accept'][1]]} {cid(sym, req.get('aas'))} "
-            f"{cid(sym, req.get('sm'))} {cid(sym, req.get('cd'))} {cid(sym, req.get('qt'))} {path} {query} {body}, {flags})")
+            f"{cid(sym, req.get('sm'))} {cid(sym, req.get('cd'))} {cid(sym, req.get('qt'))} {path} {query} {body} {'true' if req.get('host') else 'false'}, {flags})")
 
 
 # ------------------------------------------------------------------ Location -> row
@@ -251,7 +263,11 @@ class Server:
         from basyx.aas.adapter.http import WSGIApp
         from basyx.aas.adapter.aasx import DictSupplementaryFileContainer
         from basyx.aas import model
-        self.app = WSGIApp(model.DictObjectStore(), DictSupplementaryFileContainer())
+        # two application objects in one process, used in turn: state kept between requests (caches) may live in
+        # the instance or in the class
+        self.apps = [WSGIApp(model.DictObjectStore(), DictSupplementaryFileContainer()) for _ in range(2)]
+        self.turn = 0
+        self.app = self.apps[0]
         self.adapter = self.app.url_map.bind("localhost")
         self.tmp = None
 
@@ -260,6 +276,8 @@ class Server:
         from basyx.aas.adapter.aasx import DictSupplementaryFileContainer
         from basyx.aas import model
         self.cleanup()
+        self.turn += 1
+        self.app = self.apps[self.turn % 2]
         fc = DictSupplementaryFileContainer()
         for (n, c, t) in files:
             fc.add_file(n, io.BytesIO(G.CONTENTS[c]), G.CTYPES[t])
@@ -356,7 +374,7 @@ def oracle_c11(req, resp, exc, before, after, unimplemented):
     return None
 
 
-def run_history(server, objs, files, backed, reqs, stop_after_mutation=False, maxlen=10**9, routes=None):
+def run_history(server, objs, files, backed, reqs, stop_after_mutation=False, maxlen=10**9, routes=None, repeat_created=False):
     """Runs reqs (a prefix of them if stop_after_mutation: until a POST/PUT/DELETE was answered 2xx)
     on the real server.  -> dict(rows, fails [(index, kind, text, endpoint)], case (Coq term), eps, n, terms)"""
     import common
@@ -365,13 +383,8 @@ def run_history(server, objs, files, backed, reqs, stop_after_mutation=False, ma
     store, fc = server.reset(objs, files, backed)
     rows, fails, terms, eps, deferred, used = [], [], [], [], [], []
     n = 0
-    for k, req in enumerate(reqs):
-        if k >= maxlen:
-            break
-        if req.get("oracle_only") or (routes is not None and not server.routing_agrees(req, url_of(req), routes)):
-            deferred.append(req)
-            n += 1
-            continue
+    def do(req):
+        """one request on the server and into the case; -> (response status or None, did the store change?)"""
         used.append(req)
         terms.append(coq_request(sym, req))
         try:
@@ -392,8 +405,23 @@ def run_history(server, objs, files, backed, reqs, stop_after_mutation=False, ma
             fails.append((len(used) - 1, f[0], f[1], ep))
         rows.append(enc_response(sym, req, resp, exc, ep, backed))
         rows.append(srow)
+        return (None if resp is None else resp.status_code), before != after
+
+    for k, req in enumerate(reqs):
+        if k >= maxlen:
+            break
+        if req.get("oracle_only") or (routes is not None and not server.routing_agrees(req, url_of(req), routes)):
+            deferred.append(req)
+            n += 1
+            continue
+        st, changed = do(req)
         n += 1
-        if stop_after_mutation and before != after:
+        b = req["body"]
+        if repeat_created and st == 201 and req["method"] == "POST" \
+                and not (b[0] == "val" and b[2].get("k") == "elem" and b[2].get("ids") is None):
+            # the same request once more (same URL string, same application object): the resource exists now
+            do(dict(req, must_reject="repeated creation of the same resource", cls=str(req.get("cls")) + "|repeated"))
+        if stop_after_mutation and changed:
             break
     case = f"({state_term}, [{'; '.join(terms)}], {G.cz(common.zhash_d(rows, 2))})"
     return {"rows": rows, "fails": fails, "case": case, "eps": eps, "n": n, "state_term": state_term, "terms": terms,
